@@ -352,6 +352,10 @@ class Check:
             known_findings_hit=[k["signature"] for k in self.known_hit],
             broken=[b["name"] for b in self.broken],
         )
+        if self.discharged < 1:
+            # a run whose proof obligations could not even be attempted reports exploration-style counts only
+            cov["obligations_attempted"] = cov.pop("obligations")
+            cov.pop("discharged")
         cov.setdefault("rule", "see DESIGN.md")
         if not cov["samples"]:
             cov["samples"] = ["(no sample recorded)"]
